@@ -970,7 +970,7 @@ impl<'a> Exec<'a> {
             2 => format!("../a/b c{}", step % 2),
             _ => format!("c{step}"),
         };
-        let r = budget::with_budget(10_000, || store.checkpoint(name));
+        let r = budget::with_budget(2_000_000, || store.checkpoint(name));
         let reads = clock::shown_list();
         let d = disk_end();
         for f in &d.fired {
@@ -1126,7 +1126,7 @@ impl<'a> Exec<'a> {
         let seen_before = observe(self.store.as_ref().unwrap().st(), &[]);
         disk_begin(fault);
         let store = self.store.as_mut().unwrap();
-        let r = budget::with_budget(20_000, || store.restore(&id));
+        let r = budget::with_budget(2_000_000, || store.restore(&id));
         let d = disk_end();
         for f in &d.fired {
             obs.count(f);
